@@ -20,6 +20,7 @@ sys.path.insert(0, os.path.dirname(os.path.abspath(__file__)))
 import rs2lean_analyze as ra
 import rs2lean_vm as rv
 import rs2lean_state as rs
+import rs2lean_ints as ints
 from rs2lean_analyze import Unsupported, bad, matching, top_level_positions, parse_struct, int_of, find_seq
 from rs2lean_vm import tokenize, lean_id, LITERALS
 
@@ -194,14 +195,22 @@ class Parser(rs.Parser):
                 if self.at('mut'):
                     self.next()
                     mut = True
-                if self.peek().kind != 'id' or self.peek(1).text != '=':
-                    bad('`let` with a pattern that is not a plain identifier, or with a type annotation', t.line)
+                if self.peek().kind != 'id' or self.peek(1).text not in ('=', ':'):
+                    bad('`let` with a pattern that is not a plain identifier', t.line)
                 name = self.ident()
-                self.next()
+                ty = None
+                if self.at(':'):
+                    self.next()
+                    ty = self.type_(['=', ';'])
+                    if not (ints.is_int(ty) or ty == 'bool'):
+                        bad('`let` with a type annotation other than an integer type / bool', t.line)
+                self.expect('=')
                 e = self.expr()
                 if self.at('else'):
                     bad('`let … else`', t.line)
                 self.expect(';')
+                if ty is not None:
+                    e = ('typed', e, ty, t.line)
                 stmts.append(('let', name, mut, e, t.line))
             elif t.kind == 'id' and t.text == 'for':
                 self.next()
@@ -226,8 +235,22 @@ class Parser(rs.Parser):
                     bad('`break` with a label or a value', t.line)
                 self.next()
                 stmts.append(('break', t.line))
+            elif t.kind == 'id' and t.text == 'while' and self.peek(1).text == 'let':
+                self.next()
+                self.next()
+                pat = self.pattern()
+                self.expect('=')
+                it = self.expr(no_struct=True)
+                body, btail = self.block()
+                if btail is not None:
+                    if btail[0] in ('if', 'iflet', 'match'):
+                        body = body + [('expr', btail, btail[-1])]
+                    else:
+                        bad('`while let` body with a tail expression', t.line)
+                stmts.append(('whilelet', pat, it, body, t.line))
             elif t.kind == 'id' and t.text in ('while', 'loop', 'unsafe', 'fn', 'struct', 'use', 'const', 'static', 'continue'):
-                bad('`%s` statement' % t.text, t.line)
+                bad('`%s` statement%s' % (t.text, ' (no bound on the number of iterations is evident)' if t.text in ('while', 'loop') else ''),
+                    t.line)
             elif t.kind == 'life':
                 bad('labelled loop', t.line)
             elif t.kind == 'op' and t.text == '{':
@@ -235,13 +258,11 @@ class Parser(rs.Parser):
             else:
                 e = self.expr()
                 nt = self.peek()
-                if nt.kind == 'op' and nt.text in ('=', '+=', '-=', '&=', '|=', '*=', '/=', '%=', '^='):
-                    self.next()
-                    if nt.text not in ('=', '+=', '-='):
-                        bad('compound assignment `%s`' % nt.text, nt.line)
+                op = self.assign_op(('=', '+=', '-=', '*=', '|=', '&=', '^=', '<<=', '>>='))
+                if op:
                     r = self.expr()
                     self.expect(';')
-                    stmts.append(('assign', e, nt.text, r, t.line))
+                    stmts.append(('assign', e, op, r, t.line))
                 elif self.at(';'):
                     self.next()
                     stmts.append(('expr', e, t.line))
@@ -269,7 +290,7 @@ STRUCTS = {
 }
 CAPTURE_MATCHES_DECL = "pub struct CaptureMatches < 'r , 't > ( Matches < 'r , 't > ) ;".split()
 
-BASE_LEAN = {'usize': 'Nat', 'u8': 'Nat', 'u32': 'Nat', 'bool': 'Bool', 'Match': '(Nat × Nat)', 'Caps': 'α', 'SErr': 'SearchErr',
+BASE_LEAN = {'usize': 'Nat', 'u8': 'Nat', 'u32': 'Nat', 'u16': 'Nat', 'u64': 'Nat', 'bool': 'Bool', 'Match': '(Nat × Nat)', 'Caps': 'α', 'SErr': 'SearchErr',
              'Piece': 'Item', 'Str': 'Bytes', 'Text': 'Bytes', 'Bytes': 'Bytes', 'Matches': 'Iter', 'CaptureMatches': 'Iter',
              'Split': 'Split', 'SplitN': 'SplitN'}
 
@@ -323,6 +344,16 @@ ITER_ITEMS_BOUND = '(text.length + 3)'
 RESERVED = {'fuel', 're', 'span', 'acc', 'rest_', 'find', 'caps', 'r_', 'e_'}
 
 
+def vid(name):
+    """the Lean identifier of a Rust variable: a name that the generated code uses for itself (RESERVED, `t1`, `t2`, …) is
+    renamed apart (`n` -> `n_rs`), so that a local may be called anything"""
+    return lean_id(name + '_rs') if (name in RESERVED or re.match(r't[0-9]+$', name)) else lean_id(name)
+
+
+def clash_rs(name):
+    return name.endswith('_rs') and (name[:-3] in RESERVED or re.match(r't[0-9]+$', name[:-3]) is not None)
+
+
 class Ctx:
     def __init__(self):
         self.types = {}
@@ -341,7 +372,12 @@ class Ctx:
         return c
 
 
-NUM = ('usize', 'u8', 'u32', 'int')
+NUM = ('usize', 'u8', 'u16', 'u32', 'u64', 'int')
+
+
+def width_of(t):
+    """the integer type whose width an operation on a value tagged `t` has (an unsuffixed literal: the type it is read at)"""
+    return 'usize' if t == 'int' else t
 
 
 def same_type(a, b):
@@ -400,11 +436,57 @@ class Translator:
         k, line = e[0], e[-1]
         if k == 'int':
             return str(e[1]), 'int'
+        if k == 'tint':
+            if not ints.is_int(e[2]) or not ints.fits(e[1], e[2]):
+                bad('integer literal of type %s' % e[2], line)
+            return str(e[1]), e[2]
+        if k == 'cast':
+            s, t = self.vex(e[1], c)
+            if e[2] in ints.SIGNED:
+                bad('cast to the signed / 128-bit type %s (not in the subset)' % e[2], line)
+            if t not in NUM or not ints.is_int(e[2]):
+                bad('cast from %s to %s' % (t, e[2]), line)
+            if t == 'int':
+                if not ints.fits(int(s), e[2]) if s.isdigit() else True:
+                    bad('cast of a literal expression', line)
+                return s, e[2]
+            return ints.cast(s, t, e[2]), e[2]
+        if k == 'typed':                     # `let x: T = e`
+            s, t = self.vex(e[1], c)
+            if ints.is_int(e[2]):
+                if t not in NUM:
+                    bad('`let _: %s` of a value of type %s' % (e[2], t), line)
+                if t == 'int' and s.isdigit() and not ints.fits(int(s), e[2]):
+                    bad('the literal %s does not fit the type %s' % (s, e[2]), line)
+                if t not in ('int', e[2]):
+                    bad('`let _: %s` of a value of type %s' % (e[2], t), line)
+                return s, e[2]
+            if t != e[2]:
+                bad('`let _: %s` of a value of type %s' % (e[2], t), line)
+            return s, t
+        if k == 'matches':
+            _, scrut, pats, _ = e
+            if scrut[0] == 'mcall' and scrut[2] == 'peek' and not scrut[3]:
+                s, t = self.vex(scrut[1], c)
+                if not (isinstance(t, tuple) and t[0] == 'list'):
+                    bad('`.peek()` on a value of type %s' % (t,), line)
+                s, t = '(List.head? %s)' % s, ('opt', t[1])
+            else:
+                s, t = self.vex(scrut, c)
+            arms = []
+            for p in pats:
+                pl, binds = self.pat_lean(p, t, line)
+                arms.append('| %s => true' % pl)
+                if self.irrefutable(p):
+                    bad('`matches!` with an irrefutable pattern', line)
+            return '(match %s with %s | _ => false)' % (s, ' '.join(arms)), 'bool'
         if k == 'bool':
             return ('true' if e[1] else 'false'), 'bool'
         if k == 'paren':
             return self.vex(e[1], c)
         if k == 'path':
+            if len(e[1]) == 2 and e[1][1] == 'MAX' and ints.is_int(e[1][0]):
+                return str(ints.modulus(e[1][0]) - 1), e[1][0]
             if len(e[1]) != 1:
                 bad('path `%s` as a value' % '::'.join(e[1]), line)
             n = e[1][0]
@@ -416,7 +498,7 @@ class Translator:
                 bad('unknown variable `%s`' % n, line)
             if c.types[n] in ('Replacer',):
                 bad('`%s` used as a value' % n, line)
-            return lean_id(n), c.types[n]
+            return vid(n), c.types[n]
         if k == 'tfield':
             s, t = self.place_type(e[1], c)
             if t == 'CaptureMatches' and e[2] == 0:
@@ -436,6 +518,8 @@ class Translator:
             bad('`%s` has no field `%s`' % (t, e[2]), line)
         if k == 'not':
             s, t = self.vex(e[1], c)
+            if t in NUM and t != 'int':
+                return ints.bitnot(s, t), t
             if t != 'bool':
                 bad('operand of `!` has type %s' % (t,), line)
             return '(!%s)' % s, 'bool'
@@ -457,7 +541,25 @@ class Translator:
             if op == '+':
                 if tl not in NUM or tr not in NUM:
                     bad('`+` between %s and %s' % (tl, tr), line)
-                return '(%s + %s)' % (l, r), join_type(tl, tr) if tl == 'int' else tl
+                rt = join_type(tl, tr) if tl == 'int' else tl
+                return (ints.arith('+', l, r, rt) if rt != 'int' else '(%s + %s)' % (l, r)), rt
+            if op == '*':
+                if tl not in NUM or tr not in NUM:
+                    bad('`*` between %s and %s' % (tl, tr), line)
+                rt = join_type(tl, tr) if tl == 'int' else tl
+                return ints.arith('*', l, r, width_of(rt)), rt
+            if op in ('|', '&', '^') and tl in NUM and tr in NUM:
+                return ints.bitop(op, l, r), join_type(tl, tr) if tl == 'int' else tl
+            if op in ('|', '&') and tl == 'bool' and tr == 'bool':
+                return '(%s %s %s)' % (l, '||' if op == '|' else '&&', r), 'bool'
+            if op in ('<<', '>>'):
+                if tl not in NUM or tr not in NUM:
+                    bad('`%s` between %s and %s' % (op, tl, tr), line)
+                if tl == 'int':
+                    bad('`%s` on an integer literal whose type is not evident here' % op, line)
+                return ints.shift(op, l, r, tl), tl
+            if op == '-':
+                bad('operator `-` (a subtraction that can underflow; use `saturating_sub` / `checked_sub`)', line)
             bad('operator `%s`' % op, line)
         if k == 'call':
             path, args = e[1], e[2]
@@ -483,9 +585,9 @@ class Translator:
             inner = e[1]
             if inner[0] == 'index' and inner[2][0] == 'range' and c.kind in ('split', 'splitn'):
                 s, t = self.vex(inner[1], c)
-                if t != 'Text' or inner[2][2] is None:
-                    bad('slice of something other than the target / without an end', line)
-                (a, ta), (b, tb) = self.vex(inner[2][1], c), self.vex(inner[2][2], c)
+                if t != 'Text':
+                    bad('slice of something other than the target', line)
+                (a, ta), (b, tb) = self.vex(inner[2][1], c), (self.vex(inner[2][2], c) if inner[2][2] is not None else ('%s.length' % s, 'usize'))
                 if ta not in NUM or tb not in NUM:
                     bad('slice bounds', line)
                 return '(Item.piece %s %s)' % (a, b), 'Piece'
@@ -529,9 +631,35 @@ class Translator:
             s, t = self.vex(recv[1], c)
             if isinstance(t, tuple) and t[0] == 'list':
                 return '(List.isEmpty %s)' % s, 'bool'
+        if m == 'count' and not args and recv[0] == 'mcall' and recv[2] == 'chars' and not recv[3]:
+            s, t = self.vex(recv[1], c)
+            if t in ('Text', 'Str'):
+                # a `&str` is valid UTF-8: its characters are its bytes that are not continuation bytes (10xxxxxx)
+                return '(List.countP (fun b_ => (b_ &&& 192) != 128) %s)' % s, 'usize'
         s, t = self.vex(recv, c)
         if t in ('Text', 'Str') and m == 'len' and not args:
             return '%s.length' % s, 'usize'
+        if (t in ('Text', 'Str', 'Bytes') or (isinstance(t, tuple) and t[0] == 'list')) and m == 'is_empty' and not args:
+            return '(List.isEmpty %s)' % s, 'bool'
+        if t == 'Text' and m in ('to_string', 'to_owned') and not args:
+            return s, 'Str'
+        if t in NUM and m in ints.METHODS:
+            if t == 'int':
+                bad('`.%s(..)` on an integer literal whose type is not evident here' % m, line)
+            if len(args) != 1:
+                bad('`.%s(..)` takes one argument' % m, line)
+            a, ta = self.vex(args[0], c)
+            if ta not in NUM:
+                bad('argument of `.%s(..)` has type %s' % (m, ta), line)
+            txt = ints.method(m, s, a, t)
+            return txt, (('opt', t) if ints.METHODS[m][2] == 'opt' else t)
+        if isinstance(t, tuple) and t[0] == 'opt' and t[1] in NUM and m == 'unwrap_or' and len(args) == 1:
+            a, ta = self.vex(args[0], c)
+            if ta not in NUM:
+                bad('argument of `.unwrap_or(..)` has type %s' % (ta,), line)
+            return '(Option.getD %s %s)' % (s, a), t[1]
+        if isinstance(t, tuple) and t[0] == 'opt' and m in ('is_some', 'is_none') and not args:
+            return '(Option.%s %s)' % ('isSome' if m == 'is_some' else 'isNone', s), 'bool'
         if t == 'Text' and m == 'as_bytes' and not args:
             return s, 'Bytes'
         if t == 'Bytes' and m == 'get' and len(args) == 1:
@@ -594,9 +722,9 @@ class Translator:
             pat, guard, body, aline = arms[i]
             c2 = c.copy()
             pre = ''
-            if pat[0] == 'pbind' and lean_id(pat[1]) != s:
+            if pat[0] == 'pbind' and vid(pat[1]) != s:
                 c2 = self.bind(c2, pat[1], st, aline)
-                pre = 'let %s := %s; ' % (lean_id(pat[1]), s)
+                pre = 'let %s := %s; ' % (vid(pat[1]), s)
             tl = self.pure_block(body, c2)
             if tl is None:
                 bad('match arm that is not a single expression, in a `match` used as a value', aline)
@@ -646,7 +774,7 @@ class Translator:
         if k == 'pbind':
             if ty is None:
                 bad('cannot type the binding `%s`' % pat[1], line)
-            return lean_id(pat[1]), [(pat[1], ty)]
+            return vid(pat[1]), [(pat[1], ty)]
         if k == 'pnone':
             if not (isinstance(ty, tuple) and ty[0] == 'opt'):
                 bad('`None` pattern on a value of type %s' % (ty,), line)
@@ -667,13 +795,18 @@ class Translator:
         bad('pattern form %s' % k, line)
 
     def bind(self, c, name, t, line, mut=False, allow_shadow=False):
-        if (name in c.types and not allow_shadow) or name in RESERVED or name in self.names or re.match(r't[0-9]+$', name):
-            bad('`%s` shadows a name that is in scope (shadowing is not in the subset)' % name, line)
+        if (name in c.types and not allow_shadow) or clash_rs(name) or name in self.names:
+            bad('`%s` shadows a name of an enclosing scope / a parameter (only an earlier `let` of the same block may be shadowed)' % name, line)
         c2 = c.copy()
         c2.types[name] = 'usize' if t == 'int' else t
+        c2.mutable.discard(name)
         if mut:
             c2.mutable.add(name)
         return c2
+
+    def may_shadow(self, c, name, stmt):
+        """a `let` that repeats the name of an earlier `let` of the same block (not a parameter, not the replacer)"""
+        return ints.shadow_ok(self, stmt) and name not in self.param_names and c.types.get(name) != 'Replacer'
 
     # ---- results
     def ret(self, e, c):
@@ -757,6 +890,7 @@ class Translator:
     def block(self, stmts, tail, c, ind, k):
         if not stmts:
             return k(c, ind, tail)
+        ints.mark_shadow_lets(stmts, self)
         s, rest = stmts[0], stmts[1:]
         kind, line = s[0], s[-1]
         cont = lambda c2, i2: self.block(rest, tail, c2, i2, k)
@@ -778,21 +912,21 @@ class Translator:
                 c2 = c.copy()
                 c2.types[name] = c.types[name][1]
                 err = '.ret (.err e_)' if c.loop else '.err e_'
-                return [ind + 'match %s with' % lean_id(name), ind + '| .error e_ => %s' % err, ind + '| .ok %s =>' % lean_id(name)] \
+                return [ind + 'match %s with' % vid(name), ind + '| .error e_ => %s' % err, ind + '| .ok %s =>' % vid(name)] \
                     + cont(c2, ind + '  ')
             if e[0] in ('if', 'iflet', 'match') and not self.is_pure(e, c):
                 def kv(c_inner, i2, tl):
                     if tl is None:
                         bad('this branch of `let %s = …` has no value' % name, line)
                     v, t = self.vex(tl, c_inner)
-                    c3 = self.bind(c, name, t, line, mut)
+                    c3 = self.bind(c, name, t, line, mut, allow_shadow=self.may_shadow(c, name, s))
                     for n in c_inner.types:          # what the arm bound stays visible to Lean only
                         pass
-                    return [i2 + 'let %s : %s := %s' % (lean_id(name), lean_type(c3.types[name]), v)] + cont(c3, i2)
+                    return [i2 + 'let %s : %s := %s' % (vid(name), lean_type(c3.types[name]), v)] + cont(c3, i2)
                 return self.cps(e, c, ind, kv)
             v, t = self.vex(e, c)
-            c2 = self.bind(c, name, t, line, mut)
-            return [ind + 'let %s : %s := %s' % (lean_id(name), lean_type(c2.types[name]), v)] + cont(c2, ind)
+            c2 = self.bind(c, name, t, line, mut, allow_shadow=self.may_shadow(c, name, s))
+            return [ind + 'let %s : %s := %s' % (vid(name), lean_type(c2.types[name]), v)] + cont(c2, ind)
         if kind == 'assign':
             _, target, op, e, _ = s
             v, t = self.vex(e, c)
@@ -801,17 +935,29 @@ class Translator:
             if not same_type(tt, t):
                 bad('assignment of a value of type %s to a place of type %s' % (t, tt), line)
             if op == '+=':
-                v = '(%s + %s)' % (cur, v)
+                v = ints.arith('+', cur, v, width_of(tt)) if tt in NUM else v
             elif op == '-=':
                 v = '(%s - %s)' % (cur, v)
-            if op != '=' and tt not in NUM:
+            elif op == '*=':
+                v = ints.arith('*', cur, v, width_of(tt)) if tt in NUM else v
+            elif op in ('|=', '&=', '^='):
+                v = ints.bitop(op[0], cur, v) if tt in NUM else '(%s %s %s)' % (cur, '||' if op == '|=' else '&&', v)
+                if tt == 'bool' and op != '^=':
+                    tt_ok = True
+                elif tt not in NUM:
+                    bad('`%s` on a value of type %s' % (op, tt), line)
+            elif op in ('<<=', '>>='):
+                v = ints.shift(op[:2], cur, v, width_of(tt)) if tt in NUM else v
+            elif op != '=':
+                bad('compound assignment `%s`' % op, line)
+            if op not in ('=', '|=', '&=') and tt not in NUM:
                 bad('`%s` on a value of type %s' % (op, tt), line)
             if r == 'self':
                 if c.loop:
                     bad('`self` is changed inside a loop', line)
                 return [ind + 'let self := %s' % self.update(target, v, c, line)] + cont(c, ind)
             if target[0] == 'path' and r in c.mutable:
-                return [ind + 'let %s : %s := %s' % (lean_id(r), lean_type(tt), v)] + cont(c, ind)
+                return [ind + 'let %s : %s := %s' % (vid(r), lean_type(tt), v)] + cont(c, ind)
             bad('assignment to something that is not a field of `self` or a `let mut` local', line)
         if kind == 'expr':
             e = s[1]
@@ -834,11 +980,11 @@ class Translator:
                     t = self.fresh()
                     panic = '.ret .panic' if c.loop else '.panic'
                     return [ind + 'match slice %s %s %s with' % (b, lo, hi), ind + '| none => %s' % panic, ind + '| some %s =>' % t,
-                            ind + '  let %s : Bytes := (%s ++ %s)' % (lean_id(v), lean_id(v), t)] + cont(c, ind + '  ')
+                            ind + '  let %s : Bytes := (%s ++ %s)' % (vid(v), vid(v), t)] + cont(c, ind + '  ')
                 x, tx = self.vex(a, c)
                 if tx != 'Str':
                     bad('`push_str` of a value of type %s' % (tx,), line)
-                return [ind + 'let %s : Bytes := (%s ++ %s)' % (lean_id(v), lean_id(v), x)] + cont(c, ind)
+                return [ind + 'let %s : Bytes := (%s ++ %s)' % (vid(v), vid(v), x)] + cont(c, ind)
             if e[0] == 'mcall' and e[2] == 'replace_append' and len(e[3]) == 2 and e[1][0] == 'path' \
                     and c.types.get(e[1][1][0]) == 'Replacer':
                 a, ta = self.vex(e[3][0], c)
@@ -847,7 +993,7 @@ class Translator:
                         or dst[1][1][0] not in c.mutable:
                     bad('`replace_append(&caps, &mut new)`', line)
                 v = dst[1][1][0]
-                return [ind + 'let %s : Bytes := (%s ++ replace_append %s)' % (lean_id(v), lean_id(v), a)] + cont(c, ind)
+                return [ind + 'let %s : Bytes := (%s ++ replace_append %s)' % (vid(v), vid(v), a)] + cont(c, ind)
             bad('expression statement that is not `if` / `match` / `push_str` / `replace_append`', line)
         if kind == 'return':
             if rest or tail is not None:
@@ -861,6 +1007,18 @@ class Translator:
             return [ind + '.next %s' % c.loop[1]]
         if kind == 'for':
             return self.for_loop(s, c, ind, cont)
+        if kind == 'whilelet':
+            # `while let Some(p) = it.next() { … }` over the items of an iterator: the bound is the list of its items; the loop
+            # stops at the first item that does not match `p` (that item is consumed); `it` must not be used afterwards
+            _, pat, it, body, _ = s
+            if not (pat[0] == 'psome' and it[0] == 'mcall' and it[2] == 'next' and not it[3] and it[1][0] == 'path'
+                    and len(it[1][1]) == 1):
+                bad('`while let` other than `while let Some(p) = it.next()` on a local iterator (no bound on the number of '
+                    'iterations is evident)', line)
+            v = it[1][1][0]
+            if v not in c.mutable or v in self.free_names([body, rest, tail], []):
+                bad('`while let … = %s.next()`: `%s` is not a `let mut` iterator, or it is used inside / after the loop' % (v, v), line)
+            return self.for_loop(('for', pat[1], it[1], body, line), c, ind, cont, refutable=True)
         bad('statement form %s' % kind, line)
 
     def scrutinee(self, e, c):
@@ -919,8 +1077,8 @@ class Translator:
             if pat[0] == 'pbind':
                 allow = k_shadow = (st == 'Str' and c.types.get(pat[1]) == 'Replacer')
                 c2 = self.bind(c2, pat[1], st, aline, allow_shadow=allow)
-                if lean_id(pat[1]) != s:
-                    out.append(ind + 'let %s : %s := %s' % (lean_id(pat[1]), lean_type(st), s))
+                if vid(pat[1]) != s:
+                    out.append(ind + 'let %s : %s := %s' % (vid(pat[1]), lean_type(st), s))
             if guard is None:
                 return out + self.block(body[0], body[1], c2, ind, kv)
             g, tg = self.vex(guard, c2)
@@ -983,7 +1141,7 @@ class Translator:
                 self.free_names(y, out)
         return out
 
-    def for_loop(self, s, c, ind, cont):
+    def for_loop(self, s, c, ind, cont, refutable=False):
         _, pat, it, body, line = s
         if c.loop or c.kind != 'replace':
             bad('`for` loop here', line)
@@ -1006,23 +1164,26 @@ class Translator:
         bound = set(n2 for n2, _ in binds)
         cap = sorted(x for x in self.free_names(body, []) if x in c.types and x not in acc and x not in bound
                      and x not in self.param_names and c.types[x] != 'Replacer')
-        acc_pat = lean_id(acc[0]) if len(acc) == 1 else '(%s)' % ', '.join(lean_id(x) for x in acc)
+        acc_pat = vid(acc[0]) if len(acc) == 1 else '(%s)' % ', '.join(vid(x) for x in acc)
         acc_ty = lean_type(c.types[acc[0]]) if len(acc) == 1 else '(%s)' % ' × '.join(lean_type(c.types[x]) for x in acc)
-        params = self.param_text + ''.join(' (%s : %s)' % (lean_id(x), lean_type(c.types[x])) for x in cap)
-        call = name + ''.join(' ' + x for x in self.param_names_lean) + ''.join(' ' + lean_id(x) for x in cap)
+        params = self.param_text + ''.join(' (%s : %s)' % (vid(x), lean_type(c.types[x])) for x in cap)
+        call = name + ''.join(' ' + x for x in self.param_names_lean) + ''.join(' ' + vid(x) for x in cap)
         cl = c.copy()
         for n2, t2 in binds:
             cl = self.bind(cl, n2, t2, line)
         cl.loop = (call, acc_pat)
         lines = ['def %s%s : %s → %s → LoopRes %s Replaced' % (name, params, wrap(lean_type(t)), acc_ty, acc_ty),
                  '  | [], acc => .next acc',
-                 '  | %s :: rest_, %s =>' % (p, acc_pat)]
+                 '  | %s :: rest_, %s =>' % ('x_' if refutable else p, acc_pat)]
 
         def end(c2, i2, tl):
             if tl is not None:
                 bad('`for` body with a value', line)
             return [i2 + '%s rest_ %s' % (call, acc_pat)]
-        lines += self.block(body, None, cl, '    ', end)
+        if refutable:
+            lines += ['    match x_ with', '    | %s =>' % p] + self.block(body, None, cl, '      ', end) + ['    | _ => .next %s' % acc_pat]
+        else:
+            lines += self.block(body, None, cl, '    ', end)
         self.defs.append(('a `for` loop of `%s` over the items of the iterator: the items left, the accumulators' % c.fn, lines))
         out = [ind + 'match %s %s %s with' % (call, v, acc_pat), ind + '| .ret r_ => r_', ind + '| .next %s =>' % acc_pat]
         return out + cont(c, ind + '  ')
@@ -1093,10 +1254,15 @@ class Translator:
     def run(self):
         toks = self.toks
         # declarations
-        for sname, (shape, decl, _) in STRUCTS.items():
+        for sname, (shape, decl, lean_name) in list(STRUCTS.items()):
             fields, sline = parse_struct(toks, sname)
-            if fields != [(f, ty) for f, ty, _ in decl]:
-                bad('struct %s: fields %s differ from the translator\'s table %s' % (sname, fields, [(f, ty) for f, ty, _ in decl]), sline)
+            table = [(f, ty) for f, ty, _ in decl]
+            same = len(fields) == len(table) and all(f == g and (a == b or (ints.is_int(a) and ints.is_int(b)))
+                                                     for (f, a), (g, b) in zip(fields, table))
+            if not same:
+                bad('struct %s: fields %s differ from the translator\'s table %s' % (sname, fields, table), sline)
+            if fields != table:         # an integer field declared with another integer type: its tag is the declared type
+                STRUCTS[sname] = (shape, [(f, a, m if a == b else (m[0], m[1], a)) for (f, a), (_, b, m) in zip(fields, decl)], lean_name)
         if find_seq(toks, CAPTURE_MATCHES_DECL) < 0:
             bad("cannot find `pub struct CaptureMatches<'r, 't>(Matches<'r, 't>);`")
         # the flag constant
@@ -1263,8 +1429,8 @@ def main(argv):
     except Unsupported as e:
         where = '%s:%s: ' % (src, e.line) if e.line else '%s: ' % src
         failure = 'rs2lean_api.py: NOT TRANSLATED - %s%s' % (where, e.msg)
-    except (OSError, IndexError, StopIteration, KeyError) as e:
-        failure = 'rs2lean_api.py: NOT TRANSLATED - %s: %r' % (src, e)
+    except Exception as e:                  # whatever goes wrong inside the translator is a refusal: never a stale file
+        failure = 'rs2lean_api.py: NOT TRANSLATED - %s: %s: %r' % (src, type(e).__name__, e)
     if failure is not None:
         print(failure)
         if not stub_on_failure or out == '-':
